@@ -1547,8 +1547,11 @@ mutual
       | _ =>
         -- `_operand_list(action_token)`
         if actionTok == .stage then
-          matrixOperandList f
-          emit .color
+          -- only `set` takes a block: `stage` names no light to send the result to
+          if (← getSt).cur.ty == .begin_ then triggerError "Nesting not allowed here."
+          else
+            matrixOperandList f
+            emit .color
         else
           operandThenMore f opCode
 
